@@ -702,3 +702,146 @@ Proof.
   rewrite <- LC in B. rewrite lookup_loc_self in B by (rewrite LC; exact ND).
   apply map_some_inj in B. rewrite B. apply names_unique.
 Qed.
+
+(* ------------------------------------------------------------------ faults detected inside the traversal *)
+(* what is wrong with one execute entry  e = (target, args)  of workflow w, instantiated below [anc] *)
+Definition entry_fault (N : ns) (anc : list string) (w : wf) (e : string * list (string * value)) : Prop :=
+  match lookup (fst e) (w_steps w) with
+  | None => True                                                    (* the target is not a step *)
+  | Some tn =>
+    match get_template N tn with
+    | None => True                                                  (* unknown template *)
+    | Some t =>
+      mem tn anc = true                                             (* template cycle *)
+      \/ (exists n v, In (n, v) (snd e) /\ mem n (map fst (t_params t)) = false)     (* unknown argument *)
+      \/ (exists n, In (n, None) (t_params t) /\ mem n (map fst (snd e)) = false)    (* missing argument *)
+      \/ (exists n v x, In (n, v) (snd e) /\ In x (refs_of v) /\ mem x (map fst (w_params w)) = false)
+                                                                    (* unknown parameter of the workflow *)
+    end
+  end.
+
+Lemma flat_map_nonempty {A B} (f : A -> list B) l x : In x l -> f x <> [] -> flat_map f l <> [].
+Proof.
+  induction l as [|y r IH]; intros I NE; [destruct I|]. cbn. intros E. apply app_eq_nil in E. destruct E as [E1 E2].
+  destruct I as [<-|I]; [auto | apply IH; auto].
+Qed.
+
+Lemma app_nonempty_r {A} (a b : list A) : b <> [] -> a ++ b <> [].
+Proof. intros NE E. apply app_eq_nil in E. destruct E; auto. Qed.
+Lemma app_nonempty_l {A} (a b : list A) : a <> [] -> a ++ b <> [].
+Proof. intros NE E. apply app_eq_nil in E. destruct E; auto. Qed.
+
+Lemma entry_fault_err N anc w TL seen idx e :
+  entry_fault N anc w e -> fst (exec_entry N anc w TL seen idx e) <> [].
+Proof.
+  unfold entry_fault, exec_entry. destruct (lookup (fst e) (w_steps w)) as [tn|]; [|intros _; apply app_nonempty_r; discriminate].
+  destruct (get_template N tn) as [t|]; [|intros _; apply app_nonempty_r; discriminate].
+  intros F. destruct (mem tn anc) eqn:CY; [apply app_nonempty_r; discriminate|].
+  set (here := TL ++ [LS "execute"; LN idx]).
+  match goal with |- fst (match ?a ++ ?b with [] => _ | _ :: _ => _ end) <> [] =>
+    assert (a ++ b <> []) as NE; [|destruct (a ++ b); [congruence|cbn; apply app_nonempty_r; discriminate]] end.
+  destruct F as [F|[[n [v [I M]]]|[[n [I M]]|[n [v [x [I [R M]]]]]]]]; [discriminate| | |].
+  - apply app_nonempty_l. eapply flat_map_nonempty; [exact I|]. cbn. apply app_nonempty_r. rewrite M. discriminate.
+  - apply app_nonempty_r. eapply flat_map_nonempty; [exact I|]. cbn. rewrite M. discriminate.
+  - apply app_nonempty_l. eapply flat_map_nonempty; [exact I|]. cbn. apply app_nonempty_l.
+    eapply flat_map_nonempty; [exact R|]. rewrite M. discriminate.
+Qed.
+
+Lemma exec_entries_cons N anc w TL seen idx e r :
+  exec_entries N anc w TL seen idx (e :: r) =
+  let '(errs, ch) := exec_entry N anc w TL seen idx e in
+  let seen' := if mem (fst e) seen then seen else seen ++ [fst e] in
+  let '(errs', chs, seen'') := exec_entries N anc w TL seen' (S idx) r in
+  (errs ++ errs', match ch with Some c => c :: chs | None => chs end, seen'').
+Proof. reflexivity. Qed.
+
+Lemma exec_entries_err N anc w TL e : forall es seen idx,
+  In e es -> entry_fault N anc w e -> fst (fst (exec_entries N anc w TL seen idx es)) <> [].
+Proof.
+  induction es as [|e0 r IH]; intros seen idx I F; [destruct I|]. rewrite exec_entries_cons.
+  destruct (exec_entry N anc w TL seen idx e0) as [errs ch] eqn:EE. cbv zeta.
+  set (seen' := if mem (fst e0) seen then seen else seen ++ [fst e0]).
+  specialize (IH seen' (S idx)).
+  destruct (exec_entries N anc w TL seen' (S idx) r) as [[errs' chs] seen''] eqn:ER. cbn.
+  destruct I as [<-|I].
+  - apply app_nonempty_l. pose proof (entry_fault_err N anc w TL seen idx e0 F) as H. rewrite EE in H. exact H.
+  - apply app_nonempty_r. apply (IH I F).
+Qed.
+
+Lemma exec_entries_seen N anc w TL s : forall es seen idx,
+  In s (snd (exec_entries N anc w TL seen idx es)) -> In s seen \/ In s (map fst es).
+Proof.
+  induction es as [|e0 r IH]; intros seen idx H; [left; exact H|]. rewrite exec_entries_cons in H.
+  destruct (exec_entry N anc w TL seen idx e0) as [errs ch]. cbv zeta in H.
+  set (seen' := if mem (fst e0) seen then seen else seen ++ [fst e0]) in *.
+  specialize (IH seen' (S idx)).
+  destruct (exec_entries N anc w TL seen' (S idx) r) as [[errs' chs] seen'']. cbn in *.
+  destruct (IH H) as [A|A]; [|right; right; exact A].
+  unfold seen' in A. destruct (mem (fst e0) seen); [left; exact A|].
+  apply in_app_iff in A. destruct A as [A|[A|[]]]; [left; exact A | right; left; exact A].
+Qed.
+
+Definition wf_fault (N : ns) (anc : list string) (w : wf) : Prop :=
+  (exists e, In e (w_exec w) /\ entry_fault N (anc ++ [w_name w]) w e)
+  \/ (exists s, In s (map fst (w_steps w)) /\ ~ In s (map fst (w_exec w))).   (* a step that is never executed *)
+
+Lemma wf_fault_errs N anc w TL errs chs seen :
+  wf_fault N anc w ->
+  exec_entries N (anc ++ [w_name w]) w TL [] 0 (w_exec w) = (errs, chs, seen) ->
+  errs ++ flat_map (fun s : string * string => if mem (fst s) seen then [] else [TL ++ [LS "execute"]]) (w_steps w) <> [].
+Proof.
+  intros [[e [I F]]|[s [I NI]]] EE.
+  - apply app_nonempty_l. pose proof (exec_entries_err N _ w TL e _ [] 0 I F) as H. rewrite EE in H. exact H.
+  - apply app_nonempty_r. apply in_map_iff in I. destruct I as [[s' tn] [E I]]. cbn in E. subst s'.
+    eapply flat_map_nonempty; [exact I|]. cbn.
+    destruct (mem s seen) eqn:M; [|discriminate]. exfalso. apply mem_in in M.
+    pose proof (exec_entries_seen N (anc ++ [w_name w]) w TL s (w_exec w) [] 0) as H. rewrite EE in H.
+    destruct (H M) as [[]|A]. auto.
+Qed.
+
+Lemma fold_visit_has_err f N anc parent l : forall (o : list child) st,
+  has_err st ->
+  has_err (fold_left (fun st' c => visit f N anc parent (l ++ [ch_step c]) (ch_dsl c) (ch_tmpl c) (ch_args c) st') o st).
+Proof.
+  induction o as [|c o IH]; intros st H; cbn; [exact H|]. apply IH. apply visit_has_err. exact H.
+Qed.
+
+(* a faulty workflow that the traversal enters leaves an error, at any depth *)
+Lemma visit_fault f N anc parent l dsl w args st :
+  d_abort st = false -> wf_fault N anc w ->
+  has_err (visit (S f) N anc parent l dsl (TW w) args st).
+Proof.
+  intros AB WF. cbn [visit]. rewrite AB.
+  match goal with |- has_err (match ?e with [] => _ | _ :: _ => _ end) => destruct e as [|x xs] eqn:EE end.
+  2:{ left. cbn. apply app_nonempty_r. discriminate. }
+  match goal with |- has_err (match ?e with [] => _ | _ :: _ => _ end) => destruct e as [|y ys] eqn:EU end.
+  2:{ right. cbn. eexists. split; [|reflexivity]. discriminate. }
+  destruct (exec_entries _ _ _ _ _ _ _) as [[errs chs] seen] eqn:EX.
+  apply fold_visit_has_err. left. cbn. apply app_nonempty_r.
+  eapply wf_fault_errs; eauto.
+Qed.
+
+Lemma discover_has_err N t :
+  get_template N (n_entry N) = Some t ->
+  has_err (visit (S (S (length (n_wfs N)))) N [] None [ENTRY] (template_location N t) t (entry_args t (n_eargs N))
+                 {| d_scopes := []; d_errs := []; d_abort := false; d_override := None; d_fuel := false |}) ->
+  forall scs, discover N <> Ok scs.
+Proof.
+  intros T HE scs. unfold discover.
+  destruct (dup_template_errs "workflows" [] 0 (map w_name (n_wfs N))) as [e1 seen].
+  destruct (dup_template_errs "components" seen 0 (map c_name (n_comps N))) as [e2 seen'].
+  rewrite T. destruct (e1 ++ e2); [|discriminate].
+  match goal with |- context [d_fuel ?s] => set (fin := s) in * end.
+  destruct (d_fuel fin); [discriminate|].
+  destruct HE as [HE|[x [NX HE]]].
+  - destruct (d_override fin); [discriminate|]. destruct (d_errs fin); [congruence|discriminate].
+  - rewrite HE. discriminate.
+Qed.
+
+Lemma reject_entry_fault N w :
+  get_template N (n_entry N) = Some (TW w) -> wf_fault N [] w -> forall cis, compile N <> Ok cis.
+Proof.
+  intros T WF cis H. destruct (compile_ok _ _ H) as [scs0 [D _]].
+  revert D. apply discover_has_err with (t := TW w); [exact T|].
+  apply visit_fault; [reflexivity|exact WF].
+Qed.
